@@ -103,9 +103,9 @@ def lift(p):
     return q
 
 
-def gen_bank(rng, i, consts, gentle):
+def gen_bank(rng, i, consts, gentle, must_size=False):
     """fields of bank number i (0-based)"""
-    unit = 8 if gentle else rng.weighted([(8, 42), (4, 14), (16, 14), (1, 10), (12, 10), (3, 10)])
+    unit = 8 if gentle else rng.weighted([(8, 50), (4, 16), (16, 10), (1, 10), (12, 7), (3, 7)])
     f = {}
     if unit != 8 or rng.chance(0.4):
         f['bits'] = str(unit)
@@ -118,14 +118,17 @@ def gen_bank(rng, i, consts, gentle):
         f['addr'] = ('-0x%x' % -addr) if addr < 0 else rng.choice(['0x%x', '%d']) % addr
         if consts and rng.chance(0.12):
             f['addr'] = rng.choice(consts)                              # a constant (must be known after the pre-pass)
+            addr = 0                                                    # its value is small; `#addr` items are placed near 0
     a = addr or 0
-    size = rng.weighted([(None, 30), (0x100, 30), (0x40, 15), (0x10, 10), (4, 7), (1, 4), (0, 4)])
+    size = rng.weighted([(None, 30), (0x100, 38), (0x40, 16), (0x10, 8), (4, 4), (1, 2), (0, 2)])
     if gentle:
         size = rng.choice([None, 0x100, 0x200])
+    if must_size and size is None and rng.chance(0.9):
+        size = 0x100                    # a bank without size has an unbounded window: only the last one may
     if size is not None:
         if rng.chance(0.25):
             f['addr_end'] = ('0x%x' % (a + size)) if a + size >= 0 else '-0x%x' % -(a + size)
-            if rng.chance(0.04):
+            if rng.chance(0.015):
                 f['size'] = '0x%x' % size                               # both: rejected
         else:
             f['size'] = '0x%x' % size
@@ -143,16 +146,16 @@ def decorate(rng, base, gentle=False):
     outp = 0
     bankdefs = []
     for i in range(nb):
-        f, unit, a, size, span = gen_bank(rng, i, consts, gentle)
+        f, unit, a, size, span = gen_bank(rng, i, consts, gentle, must_size=(i < nb - 1))
         k = rng.below(100)
         if k < 72:
             f['outp'] = rng.choice(['0x%x', '%d']) % outp
             outp += span
             if rng.chance(0.15):
                 outp += rng.choice([8, 3, 64])
-        elif k < 82:
+        elif k < 77:
             f['outp'] = '0'                                             # windows may overlap: rejected
-        elif k < 90 and not gentle:
+        elif k < 82 and not gentle:
             pass                                                        # no outp: only labels / #res may live here
         else:
             f['outp'] = '0x%x' % (outp + rng.choice([0, 8, 0x100]))
@@ -160,7 +163,7 @@ def decorate(rng, base, gentle=False):
         if rng.chance(0.3):
             f['fill'] = True
         if not gentle and rng.chance(0.4):
-            f['labelalign'] = str(rng.choice([unit, 2 * unit, 8, 16, 32, 24, 0, 5]))
+            f['labelalign'] = str(rng.choice([unit, unit, 2 * unit, 8 if unit in (1, 4, 8) else 4 * unit, 16, 32, 24, 0, 5]))
         name = 'bk%d' % i if not rng.chance(0.02) or i == 0 else 'bk0'  # duplicate bank name: rejected
         banks.append((name, unit, a, size))
         bankdefs.append(('bankdef', name, f))
@@ -200,7 +203,7 @@ def decorate(rng, base, gentle=False):
             a = b[2] + rng.below(max(1, lim)) if rng.chance(0.9) else b[2] - 1 + rng.choice([0, lim + 1])
             items.append(('addr', ('0x%x' % a) if a >= 0 else '-0x%x' % -a))
             continue
-        if it[0] == 'label' and cur is not None and banks[cur][1] not in (1, 4, 8) and rng.chance(0.8):
+        if it[0] == 'label' and cur is not None and banks[cur][1] not in (1, 4, 8) and rng.chance(0.92):
             items.append(('align', str(banks[cur][1] * rng.choice([1, 1, 2]))))       # keep labels on an address boundary
         items.append(it)
         if it[0] in ('label', 'const'):
@@ -317,13 +320,13 @@ def gen_edge_prog(rng):
             it.append(('data', 32, ['x']))
     elif k < 36:
         it.append(('bankdef', 'a', {'bits': str(u), 'addr': hx(a), 'outp': '0'}) if rng.chance(0.6) else ('label', 'q', 0))
-        d = rng.choice([(1 << 64) // u - 1, (1 << 64) // u, (1 << 64) // u + 1, 0x1fffffffffffffff, 0x2000000000000000, (1 << 64) - 1, 1 << 64, 100000000, 99999999])
+        d = rng.choice([(1 << 64) // u - 1, (1 << 64) // u, (1 << 64) // u + 1, 0x1fffffffffffffff, 0x2000000000000000, (1 << 64) - 1, 1 << 64, 0x40000000, 0x80000000])
         it.append(('addr', hx((a if it[0][0] == 'bankdef' else 0) + d)))
-        it.append(('data', 8, ['1']))
+        it.append(rng.choice([('data', 8, ['1']), ('data', 8, ['1']), ('label', 'x', 0), ('res', '1')]))
     elif k < 48:
         if rng.chance(0.6):
             it.append(('bankdef', 'a', {'bits': str(u), 'outp': '0'}))
-        it.append(('res', rng.choice(['0xffffffff', '0x100000000', '0xfffffff', '100000000', '-1', '12500000', '12500001'])))
+        it.append(('res', rng.choice(['0xffffffff', '0x100000000', '0x40000000', '0x80000000', '-1', '3', '0'])))
         it.append(('data', 8, ['1']))
     elif k < 60:
         la = rng.choice([0, 1, u, u + 1, 7, 24, 2 * u, 1 << 63, (1 << 64) - 1, 1 << 64])
@@ -341,6 +344,13 @@ def gen_edge_prog(rng):
         it.append(('data', 8, ['$' if rng.chance(0.3) else '2']))
         if rng.chance(0.5):
             it.append(('label', 'x', 0))
+    elif k < 75:
+        # F61: labels and #res add outp + position unchecked
+        it.append(('bankdef', 'a', {'bits': str(u), 'addr': '0', 'outp': hx(rng.choice([(1 << 64) - 1, (1 << 64) - 8, (1 << 64) - 16]))}))
+        it.append(('res', str(rng.below(3))))
+        it.append(('label', 'x', 0))
+        if rng.chance(0.3):
+            it.append(('data', 8, ['1']))
     elif k < 82:
         # bank windows (F48: `outp + size` is a plain `+`)
         o1 = rng.choice([(1 << 64) - 1, (1 << 64) - 8, 0, 8, 1 << 63])
@@ -443,3 +453,23 @@ def banks_to_model(s):
         h = lambda v: '-' if v == '-' else '%x' % int(v)
         out.append(','.join([a, h(u), h(la), h(sz), h(o), f]))
     return ';'.join(out)
+
+
+def panic_class(p):
+    """known classes of debug-build panics that the model predicts as Panic: F48 (bank window end overflows, two windows
+    compared) and F61 (outp + position of a label / #res overflows)"""
+    big = [it for it in p.items if it[0] == 'bankdef' and _int(it[2].get('outp')) is not None and
+           _int(it[2].get('outp')) + max(0, _int(it[2].get('size')) or 0) * max(1, _int(it[2].get('bits')) or 8) >= (1 << 64) - 64]
+    nbank = sum(1 for it in p.items if it[0] == 'bankdef')
+    if big and nbank >= 2:
+        return 'F48'
+    if big:
+        return 'F61'
+    return None
+
+
+def _int(t):
+    try:
+        return int(t, 0)
+    except (TypeError, ValueError):
+        return None
